@@ -106,7 +106,7 @@ func semRun(c *Ctx, flavour string, n int, prop string) {
 			if err != nil {
 				// the optimizer may only refuse with the runtime error of a constant sub-expression
 				if !strings.Contains(err.Error(), "Optimizer Error") {
-					c.Violation(PropViolation{"C01", "optimizer on: compile fails with a non-optimizer error: " + firstLine(err.Error()), src, "C01:opt-compile-error"})
+					c.Violation(PropViolation{"C01", "optimizer on: compile fails with a non-optimizer error: " + semFirstLine(err.Error()), src, "C01:opt-compile-error"})
 				}
 				c.Count("opt-refused")
 				continue
@@ -168,7 +168,7 @@ func encodeAll(xs []ugo.Object) []string {
 	return r
 }
 
-func firstLine(s string) string { return strings.SplitN(s, "\n", 2)[0] }
+func semFirstLine(s string) string { return strings.SplitN(s, "\n", 2)[0] }
 
 func init() {
 	register(&Stream{
